@@ -54,7 +54,7 @@ def main():
                 procs[p] = subprocess.Popen([os.path.join(VERIF, "check"), p, "--pdb", tmp.name, "--no-evidence"], stdout=subprocess.PIPE, stderr=subprocess.STDOUT, text=True)
             for p, pr in procs.items():
                 o, _ = pr.communicate()
-                keys = re.findall(r"\[(C\d\d/[^\]]+)\]\s*$", o, re.M)
+                keys = re.findall(r"\[(C\d\d/[^\]]+)\]\s*$", "\n".join(l for l in o.splitlines() if not l.startswith("KNOWN-FINDING")), re.M)
                 if pr.returncode != 0:
                     alarms[p] = keys[:6] or [o[-300:]]
             os.unlink(tmp.name)
